@@ -428,9 +428,9 @@ with bu_make_consistent (fuel : nat) (w : world) (t : task) {struct fuel} : outc
       | None => Abort (ABug 2) w
       end
     else
-      match get_task_output w t with
-      | None => execute_with (require_bu_with (bu_make_consistent f)) w t     (* new task: execute *)
-      | Some cached =>
+      if (match get_task_output w t with None => true | Some _ => false end) && negb (memN t (queue w)) then
+        execute_with (require_bu_with (bu_make_consistent f)) w t     (* new task (no output, not scheduled): execute *)
+      else
         bind (bu_require_scheduled_now f w t) (fun r w1 =>
           match r with
           | Some o => Done o w1
@@ -440,7 +440,6 @@ with bu_make_consistent (fuel : nat) (w : world) (t : task) {struct fuel} : outc
             | None => Abort (ABug 6) w1          (* "BUG: no task output for unaffected task" *)
             end
           end)
-      end
   end
 with bu_require_scheduled_now (fuel : nat) (w : world) (t : task) {struct fuel} : outcome (option Z) :=
   match fuel with
